@@ -117,13 +117,16 @@ pub fn run(a: &Args) {
     let uuids: Vec<Uuid> = (0..4).map(|i| Uuid::from_u128(0x1234_5678_9abc_def0_0000_0000_0000_0000 + i)).collect();
     let mut cases = vec![];
     let client: SocketAddr = "192.0.2.7:50000".parse().unwrap();
+    // One built adapter chain serves three consecutive queries (different host names, players and
+    // target lists), as one running router serves many connections with the adapters it built once.
+    let mut built: Option<(Vec<Filt>, Strat, DynFilterAdapters, DynStrategyAdapter)> = None;
     for n in 0..a.cases {
-        let alias = n % 3 == 2;
+        let alias = (n / 3) % 3 == 2;
         let name = rng.pick(NAMES).to_string();
         let uid = *rng.pick(&uuids);
         let host = rng.pick(HOSTS).to_string();
         let nf = if rng.chance(1, 6) { 6 } else { rng.below(4) as usize };
-        let filters: Vec<Filt> = (0..nf).map(|_| {
+        let fresh_filters: Vec<Filt> = (0..nf).map(|_| {
             let host = if rng.chance(1, 2) { Some(rng.pick(HOST_RX).to_string()) } else { None };
             let kind = match rng.below(4) {
                 0 | 1 => { let k = rng.below(3) as usize; Kind::Rules((0..k).map(|_| (rng.pick(KEYS).to_string(), gen_op(&mut rng))).collect()) }
@@ -132,7 +135,7 @@ pub fn run(a: &Args) {
             };
             Filt { host, kind }
         }).collect();
-        let strat = if rng.chance(1, 2) { Strat::Any } else { Strat::Fill(rng.pick(KEYS).to_string(), *rng.pick(&[0u32, 1, 5, 10, 11, 100, u32::MAX])) };
+        let fresh_strat = if rng.chance(1, 2) { Strat::Any } else { Strat::Fill(rng.pick(KEYS).to_string(), *rng.pick(&[0u32, 1, 5, 10, 11, 100, u32::MAX])) };
         let nt = rng.below(8) as usize;
         let targets: Vec<Target> = (0..nt).map(|i| {
             let mut meta = HashMap::new();
@@ -141,14 +144,19 @@ pub fn run(a: &Args) {
         }).collect();
 
         // real adapters, built from configuration values
-        let cfg: Vec<config::OptionFilterAdapter> = serde_json::from_value(Value::Array(filters.iter().map(|f| filt_json(f, alias)).collect())).expect("filter config");
-        let scfg: config::StrategyAdapter = match &strat {
-            Strat::Any => serde_json::from_value(json!(if alias { "fixed" } else { "any" })).expect("strategy config"),
-            Strat::Fill(f, m) => serde_json::from_value(json!({ if alias { "playerfill" } else { "player_fill" }: {"field": f, "max_players": m} })).expect("strategy config"),
-        };
+        if n % 3 == 0 || built.is_none() {
+            let cfg: Vec<config::OptionFilterAdapter> = serde_json::from_value(Value::Array(fresh_filters.iter().map(|f| filt_json(f, alias)).collect())).expect("filter config");
+            let scfg: config::StrategyAdapter = match &fresh_strat {
+                Strat::Any => serde_json::from_value(json!(if alias { "fixed" } else { "any" })).expect("strategy config"),
+                Strat::Fill(f, m) => serde_json::from_value(json!({ if alias { "playerfill" } else { "player_fill" }: {"field": f, "max_players": m} })).expect("strategy config"),
+            };
+            let (fa, sa) = rt.block_on(async {
+                (DynFilterAdapters::from_config(cfg).await.expect("filters from config"), DynStrategyAdapter::from_config(scfg).await.expect("strategy from config"))
+            });
+            built = Some((fresh_filters, fresh_strat, fa, sa));
+        }
+        let (filters, strat, fa, sa) = built.as_ref().map(|(f, s, fa, sa)| (f.clone(), s.clone(), fa, sa)).unwrap();
         let (filtered, chosen) = rt.block_on(async {
-            let fa = DynFilterAdapters::from_config(cfg).await.expect("filters from config");
-            let sa = DynStrategyAdapter::from_config(scfg).await.expect("strategy from config");
             let filtered = fa.filter(&client, (&host, 25565), 767, (&name, &uid), targets.clone()).await.expect("filter");
             let chosen = sa.select(&client, (&host, 25565), 767, (&name, &uid), filtered.clone()).await.expect("select");
             (filtered, chosen)
